@@ -16,7 +16,7 @@ CONSTANTS Check        \* set of property names to evaluate, e.g. {"C03","C11","
 Recs == ndJsonDeserialize(IOEnv.TRACE_FILE)
 
 VARIABLE i
-ZeroRegs == \A k \in {1, 11, 13, 14, 15, 16, 17, 18, 19, 21, 30} : TLCSet(k, 0)
+ZeroRegs == \A k \in {1, 11, 13, 14, 15, 16, 17, 18, 19, 20, 21, 30} : TLCSet(k, 0)
 Init == ZeroRegs /\ i \in 1..Len(Recs)
 Next == UNCHANGED i
 Spec == Init /\ [][Next]_i
@@ -25,6 +25,7 @@ Rng(s) == {s[k] : k \in DOMAIN s}
 StrSet(s) == {s[k] : k \in DOMAIN s}
 
 \* JSON state -> observable record of Props.tla
+ShapeIdx(k) == CASE k = "circ" -> 1 [] k = "perim" -> 2 [] k = "axes" -> 3
 DecO(j) ==
     [time |-> [n \in Node |-> j.time[n]],
      E    |-> {<<e[1], e[2]>> : e \in Rng(j.E)},
@@ -40,8 +41,17 @@ DecO(j) ==
                  IF \E r \in Rng(j.iou) : r[1] = e[1] /\ r[2] = e[2]
                  THEN LET r == CHOOSE r \in Rng(j.iou) : r[1] = e[1] /\ r[2] = e[2] IN <<r[3], r[4]>>
                  ELSE NoIoU],
+     ecust |-> [e \in Node \X Node |->
+                 IF \E r \in Rng(j.ecust) : r[1] = e[1] /\ r[2] = e[2]
+                 THEN (CHOOSE r \in Rng(j.ecust) : r[1] = e[1] /\ r[2] = e[2])[3] ELSE None],
      seg  |-> [q \in Pix |-> j.seg[q]],
-     act  |-> StrSet(j.act), reg |-> StrSet(j.reg),
+     act  |-> Rng(j.act), reg |-> Rng(j.reg),
+     \* shape features: stored digest (shpv) and, through the from-scratch digest, freshness (shp)
+     shpv |-> [k \in ShapeKeys |-> [n \in Node |-> j.shpv[ShapeIdx(k)][n]]],
+     shp  |-> [k \in ShapeKeys |-> [n \in Node |->
+                 IF j.shpv[ShapeIdx(k)][n] = "" THEN NoShape
+                 ELSE IF j.shpv[ShapeIdx(k)][n] = j.shpr[ShapeIdx(k)][n]
+                      THEN {q \in Pix : j.seg[q] = n /\ FrameOf(q) = j.time[n]} ELSE {-1}]],
      ulen |-> j.ulen, rlen |-> j.rlen]
 
 \* lookups are lists in the code: duplicates are visible only before the set conversion
@@ -68,7 +78,8 @@ QueriesOK(j, O) ==
           /\ (j.q.has[id][k] = 1) <=> ScanHas(O, id, t)
     /\ \A n \in Present(O) : O.tid[n] # j.q.next_tid
     /\ LidOn(O) => \A n \in Present(O) : O.lid[n] # j.q.next_lid
-P_C06R(x) == (x.pf.forest /\ x.pf.tid /\ x.pf.lid /\ x.pf.look /\ NoDupLookups(Rec.pre)) =>
+P_C06R(x) == (x.pf.forest /\ x.pf.tid /\ x.pf.lid /\ x.pf.look /\ NoDupLookups(Rec.pre) /\ ~IsSwitch(x.c)
+              /\ TidOn(x.pre)) =>
                 /\ LookupOK(x.post) /\ QueriesOK(Rec.post, x.post)
                 /\ (Accepted(x) => /\ LookupOK(x.u_post) /\ NoDupLookups(Rec.u_post)
                                    /\ LookupOK(x.r_post) /\ NoDupLookups(Rec.r_post))
@@ -83,9 +94,9 @@ P_C07R(x) == P_C07(x) /\ ((HasSeg /\ x.pf.forest /\ x.pf.seg /\ x.ok) => PixQuer
 Dummy(k) == [j \in 1..k |-> <<>>]
 ModelOf(O) == [time |-> O.time, E |-> O.E, tid |-> O.tid, lid |-> O.lid, t2n |-> O.t2n, l2n |-> O.l2n,
                maxT |-> O.maxT, maxL |-> O.maxL, cust |-> O.cust, pos |-> O.pos, area |-> O.area,
-               iou |-> O.iou, seg |-> O.seg, act |-> O.act, reg |-> O.reg,
+               iou |-> O.iou, seg |-> O.seg, act |-> O.act, reg |-> O.reg, shp |-> O.shp, ecust |-> O.ecust,
                U |-> Dummy(O.ulen), R |-> Dummy(O.rlen)]
-SameObs(A, B) == FullEq(A, B) /\ A.maxT = B.maxT /\ A.maxL = B.maxL
+SameObs(A, B) == RefEq(A, B)
 \* which component differs (for the DRIFT line)
 DiffField(A, B) ==
     IF A.time # B.time THEN "time" ELSE IF A.E # B.E THEN "E" ELSE IF A.tid # B.tid THEN "tid"
@@ -102,7 +113,9 @@ RefOne(x, r) ==
        /\ SameObs(Obs(r.s), x.post)
        /\ (acc => /\ u.ret = x.u_ret /\ SameObs(Obs(u.s), x.u_post)
                   /\ rr.ret = x.r_ret /\ SameObs(Obs(rr.s), x.r_post))
-Refines(x) == \E r \in StepSet(ModelOf(x.pre), x.c) : RefOne(x, r)
+\* bulk recomputation of track / lineage ids assigns them in an order the model does not fix
+ArbitraryIds(c) == c[1] = KEnable /\ c[3] = 1 /\ ({"tid", "lid"} \cap FeatSet(c[2]) # {})
+Refines(x) == ArbitraryIds(x.c) \/ \E r \in StepSet(ModelOf(x.pre), x.c) : RefOne(x, r)
 DriftWhat(x) ==
     LET r == CHOOSE q \in StepSet(ModelOf(x.pre), x.c) : TRUE
     IN IF r.ok # x.ok \/ r.err # x.err THEN <<"outcome", r.err>>
@@ -136,6 +149,7 @@ Report ==
     /\ Rep("C07", 17, HasSeg /\ Accepted(x) /\ x.pre.seg # x.post.seg, P_C07R(x))
     /\ Rep("C08", 18, HasSeg /\ Accepted(x) /\ x.pre.seg # x.post.seg, P_C08(x))
     /\ Rep("C09", 19, HasSeg /\ Accepted(x) /\ x.post.E # {} /\ x.pre.seg # x.post.seg, P_C09(x))
+    /\ Rep("C10", 20, IsSwitch(x.c) \/ ManagedKey(x.c) \/ (Available \ x.pre.act # {} /\ Accepted(x)), P_C10(x))
     /\ Rep("C11", 21, IsEdit(x.c) /\ Refused(x), P_C11(x))
     /\ Rep("C20", 30, IsEdit(x.c), P_C20(x))
     /\ (("REF" \in Check) =>
@@ -143,5 +157,5 @@ Report ==
 
 Inv == Report
 
-Post == PrintT(<<"COUNTS", [k \in {1, 11, 13, 14, 15, 16, 17, 18, 19, 21, 30} |-> TLCGet(k)]>>)
+Post == PrintT(<<"COUNTS", [k \in {1, 11, 13, 14, 15, 16, 17, 18, 19, 20, 21, 30} |-> TLCGet(k)]>>)
 =============================================================================
